@@ -4534,6 +4534,104 @@ impl FieldEncoder for PrimitiveStructuralEncoder {
     }
 }
 
+/// Read-only access to the private mini-block scheduling functions for the verification harness.
+#[cfg(lancedb_lance_verif)]
+pub mod verif_hooks {
+    use super::{ChunkInstructions, DecodeMiniBlockTask, MiniBlockRepIndex, PreambleAction};
+    use std::ops::Range;
+
+    /// (chunk_idx, preamble: 0 absent / 1 skip / 2 take, rows_to_skip, rows_to_take, take_trailer)
+    pub type Instr = (usize, u8, u64, u64, bool);
+
+    fn action_code(a: PreambleAction) -> u8 {
+        match a {
+            PreambleAction::Absent => 0,
+            PreambleAction::Skip => 1,
+            PreambleAction::Take => 2,
+        }
+    }
+
+    fn action_of(c: u8) -> PreambleAction {
+        match c {
+            0 => PreambleAction::Absent,
+            1 => PreambleAction::Skip,
+            _ => PreambleAction::Take,
+        }
+    }
+
+    fn to_tuple(i: &ChunkInstructions) -> Instr {
+        (
+            i.chunk_idx,
+            action_code(i.preamble),
+            i.rows_to_skip,
+            i.rows_to_take,
+            i.take_trailer,
+        )
+    }
+
+    /// `MiniBlockRepIndex::decode_from_bytes` (stride 2) followed by `ChunkInstructions::schedule_instructions`
+    pub fn schedule_instructions(rep_index: &[(u64, u64)], user_ranges: &[Range<u64>]) -> Vec<Instr> {
+        let bytes = rep_index
+            .iter()
+            .flat_map(|(e, p)| e.to_le_bytes().into_iter().chain(p.to_le_bytes()))
+            .collect::<Vec<u8>>();
+        let index = MiniBlockRepIndex::decode_from_bytes(&bytes, 2);
+        ChunkInstructions::schedule_instructions(&index, user_ranges)
+            .iter()
+            .map(to_tuple)
+            .collect()
+    }
+
+    /// `ChunkInstructions::drain_from_instruction`; returns (rows_to_skip, rows_to_take, preamble_action,
+    /// consumed, rows_desired, need_preamble, skip_in_chunk) — the last three are the updated in/out arguments
+    pub fn drain_from_instruction(
+        instr: Instr,
+        mut rows_desired: u64,
+        mut need_preamble: bool,
+        mut skip_in_chunk: u64,
+    ) -> (u64, u64, u8, bool, u64, bool, u64) {
+        let ci = ChunkInstructions {
+            chunk_idx: instr.0,
+            preamble: action_of(instr.1),
+            rows_to_skip: instr.2,
+            rows_to_take: instr.3,
+            take_trailer: instr.4,
+        };
+        let (d, consumed) =
+            ci.drain_from_instruction(&mut rows_desired, &mut need_preamble, &mut skip_in_chunk);
+        (
+            d.rows_to_skip,
+            d.rows_to_take,
+            action_code(d.preamble_action),
+            consumed,
+            rows_desired,
+            need_preamble,
+            skip_in_chunk,
+        )
+    }
+
+    /// `DecodeMiniBlockTask::map_range`: (item range, level range)
+    pub fn map_range(
+        range: Range<u64>,
+        rep: Option<&Vec<u16>>,
+        def: Option<&Vec<u16>>,
+        max_rep: u16,
+        max_visible_def: u16,
+        total_items: u64,
+        preamble_action: u8,
+    ) -> (Range<u64>, Range<u64>) {
+        DecodeMiniBlockTask::map_range(
+            range,
+            rep,
+            def,
+            max_rep,
+            max_visible_def,
+            total_items,
+            action_of(preamble_action),
+        )
+    }
+}
+
 #[cfg(test)]
 #[allow(clippy::single_range_in_vec_init)]
 mod tests {
